@@ -11,13 +11,14 @@ Local Open Scope N_scope.
 
 (* the model's assumptions about the code, recomputed from the generated tables: the event loop posts timer
    events with PLAIN blocking sends, the periodic server posts session reports through NotifySessReport whose
-   send is a select on srCh / done (blocking while the server runs), the ticker goroutine posts with a plain send,
-   stopTicker hands over on an unbuffered channel *)
+   send is a select on srCh / done (blocking while the server runs), the ticker goroutine posts inside a select that
+   also waits for its stop channel (since fix 3 of C17: it no longer blocks a stopping server), stopTicker hands over
+   on an unbuffered channel *)
 Definition blocking_modes_as_modelled : bool :=
   let has x := existsb (fun y => match x, y with (a, b, c), (a', b', c') =>
                   (String.eqb a a' && String.eqb b b' && String.eqb c c')%bool end) perio_chanops in
   (has ("Server.AddPeriodReportTimer", "Server.evtCh", "send") && has ("Server.DelPeriodReportTimer", "Server.evtCh", "send")
-   && has ("PERIOGroup.newTicker$1", "local.evtCh", "send") && has ("PERIOGroup.stopTicker", "PERIOGroup.stopCh", "send")
+   && has ("PERIOGroup.newTicker$1", "local.evtCh", "send-select") && has ("PERIOGroup.stopTicker", "PERIOGroup.stopCh", "send")
    && has ("Server.Serve", "Server.evtCh", "recv")
    && existsb (fun y => match y with (a, b, c) => (String.eqb a "PfcpServer.NotifySessReport" && String.eqb b "PfcpServer.srCh"
                                                      && String.eqb c "send-select")%bool end) offloop_chanops)%string%bool.
@@ -25,6 +26,28 @@ Definition blocking_modes_as_modelled : bool :=
 Theorem C18_blocking_modes : blocking_modes_as_modelled = true.
 Proof. vm_compute. reflexivity. Qed.
 Print Assumptions C18_blocking_modes.
+
+(* the queues of the model are the code's: each channel is made with the capacity constant the model uses for it
+   (ConstsGen), so a queue sized with another constant breaks this obligation *)
+Definition has3 (t : list (string * string * string)) (x : string * string * string) : bool :=
+  existsb (fun y => match x, y with (a, b, c), (a', b', c') => (String.eqb a a' && String.eqb b b' && String.eqb c c')%bool end) t.
+Definition capacities_as_modelled : bool :=
+  (has3 chan_makes ("NewPfcpServer", "rcvCh", "RECEIVE_CHANNEL_LEN") && has3 chan_makes ("NewPfcpServer", "srCh", "REPORT_CHANNEL_LEN")
+   && has3 chan_makes ("NewPfcpServer", "trToCh", "TRANS_TIMEOUT_CHANNEL_LEN") && has3 chan_makes ("OpenServer", "evtCh", "EVENT_CHANNEL_LEN")
+   && has3 chan_makes ("Push", "s.q[pdrid]", "s.qlen"))%string%bool.
+Theorem C18_capacities : capacities_as_modelled = true.
+Proof. vm_compute. reflexivity. Qed.
+Print Assumptions C18_capacities.
+
+(* inside package pfcp the event loop never executes a send that can block on a queue only the loop itself drains:
+   every send it can reach (over-approximated call graph, go statements excluded) is inside a select with a default
+   clause; the two Notify* functions appear only through timer closures, which run on their own goroutines *)
+Definition loop_sends_ok : bool :=
+  forallb (fun x => match x with (f, ch, m) =>
+    (String.eqb m "nonblocking" || existsb (String.eqb f) ["PfcpServer.NotifyTransTimeout"; "PfcpServer.NotifySessReport"])%string%bool end) loop_sends.
+Theorem C18_loop_sends_cannot_block : loop_sends_ok = true.
+Proof. vm_compute. reflexivity. Qed.
+Print Assumptions C18_loop_sends_cannot_block.
 
 (* while both servers are inside their critical sections, neither can move iff both queues are full *)
 Theorem C18_deadlock_characterisation : forall w,
